@@ -376,6 +376,9 @@ func WorkerMain(t *testing.T, engines map[string]Engine) {
 			break
 		}
 		runSeed := Mix(MixStr(job.Seed, job.Property+"/"+job.Profile), uint64(idx))
+		// which run this process is in, for the driver: when the process dies (a fatal error of the Go runtime in the
+		// code under test cannot be recovered from) this file says which run to repeat
+		_ = os.WriteFile(job.Out+".cur", []byte(fmt.Sprintf(`{"run_index": %d, "run_seed": %d}`, idx, runSeed)), 0o600)
 		tape := NewTape(runSeed, job.TapeLimit)
 		o := RunOne(t, eng, &job, runSeed, tape, idx, false, func(c *Ctx) {
 			account(c)
@@ -563,6 +566,9 @@ func tapeKey(t []uint64) string {
 }
 
 // wallNow reads the real clock even when called from inside a synctest bubble (where time.Now is the fake clock).
+// WallNow is the real clock (time.Now is the fake clock inside a bubble).
+func WallNow() time.Time { return wallNow() }
+
 func wallNow() time.Time {
 	var tv syscall.Timeval
 	_ = syscall.Gettimeofday(&tv)
